@@ -260,7 +260,7 @@ Definition flash_sto (m : mgr) (fw par : nat) (bsz : N) (maxl : nat) (moff : N) 
 (* UpdaterMatrix::row: identity below n; coded fragment number m - n + 1 above, in u32 arithmetic.
    [ffr] = built with force-full-r.  [None] = the seed computation 1 + 1001*N overflows u32 (panic in checked arithmetic). *)
 Definition mask (l : list N) : N := fold_left (fun acc r => N.lor acc (N.shiftl 1 r)) l 0.
-Definition PRBS_FUEL : nat := 4096.
+Definition PRBS_FUEL : nat := N.to_nat 65536.     (* rejection-loop fuel: far above the expected number of draws for M <= 16384 *)
 (* [cn] = coded fragment number (m - n + 1 as u32) *)
 Definition coded_row (ffr : bool) (nn : nat) (cn : N) : N :=
   let cm := N.of_nat nn in
